@@ -561,6 +561,7 @@ def run(ctx):
         elif res != "bad":
             shutil.rmtree(root, ignore_errors=True)
     alias_inside_union_case()
+    import_graphs(ctx, home, quick)
 
     # (iv) init scaffolds
     def init(nm):
@@ -589,6 +590,91 @@ def run(ctx):
         if res == "ok":
             shutil.rmtree(root, ignore_errors=True)
     pmap(init, (NAMESPACES[:8] if quick else NAMESPACES) + ["lowercase", "My-Pkg", "9x", ""], workers=6)
+
+
+def import_graphs(ctx, home, quick):
+    """Accepted packages WITH imports: every loop-free import graph on 3 and 4 packages in which everything is reachable from the root, each
+    import list in its written order and reversed; every package uses records, enums, generics and aliases of each of its direct imports in records, aliases and
+    protocol steps. All namespaces land in the same C++ files, so the order the namespaces are emitted in matters; Python gets one package per namespace."""
+    import itertools
+    graphs = []
+    for n in (3, 4):
+        pairs = [(i, j) for i in range(n) for j in range(1, n) if i != j]
+        for mask in range(1 << len(pairs)):
+            adj = {}
+            for k, (i, j) in enumerate(pairs):
+                if mask >> k & 1:
+                    adj.setdefault(i, []).append(j)
+            seen, stack = {0}, [0]
+            while stack:
+                for v in adj.get(stack.pop(), []):
+                    if v not in seen:
+                        seen.add(v)
+                        stack.append(v)
+            if len(seen) != n:
+                continue
+            color = {}
+
+            def cyc(u):
+                color[u] = 1
+                for v in adj.get(u, []):
+                    if color.get(v) == 1 or (v not in color and cyc(v)):
+                        return True
+                color[u] = 2
+                return False
+            if cyc(0):
+                continue
+            if not any(len(set(v)) >= 2 for v in adj.values()):
+                continue                # chains are C18's business: here a package is reachable through more than one path or has siblings
+            graphs.append((n, adj))
+    r = rng("C08graphs")
+    if quick:
+        graphs = [g for g in graphs if g[0] == 3] + r.sample([g for g in graphs if g[0] == 4], 10)
+    jobs = [(gi, n, adj, rev) for gi, (n, adj) in enumerate(graphs) for rev in (False, True)]
+
+    def one(job):
+        gi, n, adj, rev = job
+        root = os.path.join(ctx.workdir, "cases", "impgraph_%d_%d" % (gi, int(rev)))
+        shutil.rmtree(root, ignore_errors=True)
+        files = {}
+        for i in range(n):
+            imps = list(adj.get(i, []))
+            if rev:
+                imps.reverse()
+            man = "namespace: Ig%d\n" % i
+            if imps:
+                man += "imports:\n" + "".join("  - ../g%d\n" % j for j in imps)
+            if i == 0:
+                man += ("cpp:\n  sourcesOutputDir: ../out/cpp\n  generateCMakeLists: false\n  generateHDF5: false\n  overrideArrayHeader: %s\n"
+                        "python:\n  outputDir: ../out/python\nmatlab:\n  outputDir: ../out/matlab\njson:\n  outputDir: ../out/json\n" % cxx.ARRAY_HEADER)
+            m = ("E%d: !enum\n  values: [a%d, b%d]\nG%d<T>: !record\n  fields:\n    t: T\n    ts: T*\n    e: E%d\n" % (i, i, i, i, i))
+            fields = "    own: int\n    g: G%d<E%d>\n" % (i, i)
+            steps = "    own: R%d\n" % i
+            for j in imps:
+                m += "A%dx%d: Ig%d.G%d<Ig%d.E%d>\nU%dx%d: [Ig%d.R%d, Ig%d.E%d, string]\n" % (i, j, j, j, j, j, i, j, j, j, j, j)
+                fields += "    r%d: Ig%d.R%d?\n    a%d: A%dx%d\n    u%d: U%dx%d\n    m%d: string->Ig%d.G%d<int>\n" % (j, j, j, j, i, j, j, i, j, j, j, j)
+                steps += "    s%d: !stream\n      items: Ig%d.R%d\n    g%d: Ig%d.G%d<R%d>\n" % (j, j, j, j, j, j, i)
+            m += "R%d: !record\n  fields:\n%s" % (i, fields)
+            m += "Pr%d: !protocol\n  sequence:\n%s" % (i, steps)
+            files["g%d/_package.yml" % i] = man
+            files["g%d/model.yml" % i] = m
+        common.write_tree(root, files)
+        what = "import graph %s%s on %d packages" % ({u: v for u, v in sorted(adj.items())}, " (import lists reversed)" if rev else "", n)
+        res = check_outputs(ctx, root, os.path.join(root, "g0"), home, what, "import-graph", full_cpp=(gi % 4 == 0) or not quick, python=False)
+        # python: one package per namespace under out/python; the root package imports the others
+        if res == "ok":
+            pr = common.run([common.PY, "-c", "import sys; sys.path.insert(0, %r); import ig_0; ig_0.R0; ig_0.Pr0WriterBase; ig_0.BinaryPr0Writer" % os.path.join(root, "out/python")], cpu_s=60)
+            ctx.ev()
+            if pr.rc != 0:
+                ctx.violation("python-import-failed:import-graph", "%s: the generated Python packages do not import: %s" % (what, pr.stderr[-300:]), {"case_dir": root})
+                res = "bad"
+        if res == "rejected":
+            ctx.violation("valid-model-rejected:import-graph", "%s: rejected by validate" % what, {"case_dir": root})
+        ctx.case(("import-graph", n, tuple(sorted((u, tuple(v)) for u, v in adj.items())), rev))
+        ctx.count("import-graph.%s" % res)
+        if res == "ok":
+            shutil.rmtree(root, ignore_errors=True)
+    pmap(one, jobs, workers=8)
 
 
 def shape_class(pkg):
